@@ -106,6 +106,38 @@ fn main() {
             check("tx-monitor message", &m, |a, b| dbg(a, b), &mut n);
         }
     }
+
+    {   // pallas-network: the node-to-client protocols — local state query, local tx submission, local message submission / notification
+        use pallas_network::miniprotocols::{localstate, localtxsubmission, localmsgsubmission, localmsgnotification, Point};
+        use pallas_codec::utils::AnyCbor;
+        let dbg = |a: &dyn std::fmt::Debug, b: &dyn std::fmt::Debug| format!("{a:?}") == format!("{b:?}");
+        let pts = [None, Some(Point::Origin), Some(Point::Specific(0, vec![])), Some(Point::Specific(u64::MAX, vec![9; 32]))];
+        use localstate::{AcquireFailure, Message as LS};
+        let mut msgs: Vec<LS> = vec![LS::Acquired, LS::Release, LS::Done, LS::Failure(AcquireFailure::PointTooOld), LS::Failure(AcquireFailure::PointNotOnChain)];
+        for p in &pts { msgs.push(LS::Acquire(p.clone())); msgs.push(LS::ReAcquire(p.clone())); }
+        for raw in [vec![0x00u8], vec![0x82, 0x01, 0x81, 0x02], vec![0x9f, 0x01, 0xff], vec![0x58, 0x20].into_iter().chain(std::iter::repeat(7u8).take(32)).collect::<Vec<u8>>()] {
+            msgs.push(LS::Query(AnyCbor::from_raw_bytes(raw.clone()))); msgs.push(LS::Result(AnyCbor::from_raw_bytes(raw)));
+        }
+        for m in &msgs { check("local state query", m, |a, b| dbg(a, b), &mut n); }
+        {
+            use localtxsubmission::{EraTx, Message as LT};
+            type M = LT<EraTx, localmsgsubmission::DmqMsgValidationError>;   // the reject payload is generic (the ledger error encoder is unfinished in the library: todo!())
+            for m in [M::AcceptTx, M::Done, M::SubmitTx(EraTx(0, vec![])), M::SubmitTx(EraTx(6, vec![0x84; 300])), M::SubmitTx(EraTx(65535, vec![1])), M::RejectTx(localmsgsubmission::DmqMsgValidationError(localmsgsubmission::DmqMsgRejectReason::Other("refused".into())))] { check("local tx submission", &m, |a, b| dbg(a, b), &mut n); }
+        }
+        {
+            use localmsgsubmission::{DmqMsg, DmqMsgOperationalCertificate, DmqMsgPayload, DmqMsgRejectReason, DmqMsgValidationError};
+            type LM = localtxsubmission::Message<DmqMsg, DmqMsgValidationError>;
+            let mk = |k: u8, len: usize| DmqMsg { msg_id: vec![k; len], msg_payload: DmqMsgPayload { msg_body: vec![k ^ 0x55; len * 3], kes_period: k as u64 * 1000, expires_at: u32::MAX - k as u32 },
+                kes_signature: vec![k; 448.min(len * 50)], operational_certificate: DmqMsgOperationalCertificate { kes_vk: vec![k; 32], issue_number: k as u64, start_kes_period: u64::MAX, cert_sig: vec![3; 64] }, cold_verification_key: vec![k; 32] };
+            let dmqs = [mk(0, 0), mk(1, 1), mk(200, 9)];
+            for d in &dmqs { check("DMQ message", d, |a, b| a == b, &mut n); check("local message submission", &LM::SubmitTx(d.clone()), |a, b| dbg(a, b), &mut n); }
+            for m in [LM::AcceptTx, LM::Done, LM::RejectTx(DmqMsgValidationError(DmqMsgRejectReason::Invalid("bad".into()))), LM::RejectTx(DmqMsgValidationError(DmqMsgRejectReason::AlreadyReceived)),
+                      LM::RejectTx(DmqMsgValidationError(DmqMsgRejectReason::Expired)), LM::RejectTx(DmqMsgValidationError(DmqMsgRejectReason::Other(String::new())))] { check("local message submission", &m, |a, b| dbg(a, b), &mut n); }
+            use localmsgnotification::Message as LN;
+            for m in [LN::RequestMessagesNonBlocking, LN::RequestMessagesBlocking, LN::ClientDone, LN::ReplyMessagesNonBlocking(vec![], false), LN::ReplyMessagesNonBlocking(dmqs.to_vec(), true),
+                      LN::ReplyMessagesBlocking(vec![dmqs[1].clone()]), LN::ReplyMessagesBlocking(dmqs.to_vec())] { check("local message notification", &m, |a, b| dbg(a, b), &mut n); }
+        }
+    }
     {   // pallas-network2
         use pallas_network2::protocol::{chainsync::Tip, keepalive, Point};
         let mut points = vec![Point::Origin];
